@@ -1,11 +1,12 @@
 #!/bin/bash
-# usage: runall.sh <tier> [ids...]   (development helper, not registered)
+# usage: runall.sh <tier> [ids...]   (development helper, not registered); VERIF_RUNALL_TIMEOUT seconds per check
 tier=$1; shift
-ids=${@:-C01 C02 C03 C04 C05 C06 C07 C08 C09 C10 C11 C12 C13 C14 C16 C17 C18}
+ids=${@:-C01 C02 C03 C04 C05 C06 C07 C08 C09 C10 C11 C12 C13 C14 C15 C16 C17 C18 C19 C20}
 for p in $ids; do
   s=$(date +%s)
-  ./check $p $tier > /tmp/runall_$p.log 2>&1
+  timeout ${VERIF_RUNALL_TIMEOUT:-7200} ./check $p $tier > /tmp/runall_${tier}_$p.log 2>&1
   rc=$?
-  echo "$p rc=$rc $(( $(date +%s)-s ))s :: $(grep -c VIOLATION /tmp/runall_$p.log) viol :: $(tail -1 /tmp/runall_$p.log | cut -c1-200)"
-  grep -h "VIOLATION\|ENGINE-ERROR\|UNCONFIRMED\|INCONCLUSIVE\|KNOWN-FINDING" /tmp/runall_$p.log | head -4 | cut -c1-400
+  echo "$p rc=$rc $(( $(date +%s)-s ))s :: $(grep -c VIOLATION /tmp/runall_${tier}_$p.log) viol :: $(tail -1 /tmp/runall_${tier}_$p.log | cut -c1-200)"
+  grep -h "VIOLATION\|ENGINE-ERROR\|UNCONFIRMED\|INCONCLUSIVE\|KNOWN-FINDING" /tmp/runall_${tier}_$p.log | head -4 | cut -c1-400
+  cp evidence/$p.json /tmp/evidence_${tier}_$p.json 2>/dev/null
 done
